@@ -78,6 +78,30 @@ class Prop(BaseProp):
                 out.append("EXC:%s" % type(e).__name__)
         return out
 
+    def values_other_thread(self, case, schemas):
+        """set_seed(k) on the calling thread, the fake() calls on a helper thread that is joined before
+        anything else happens: no concurrency, just another thread identity."""
+        import threading
+        k = dec(case["k"])
+        self.Random().set_seed(k)
+        out = []
+
+        def body():
+            for sch in schemas:
+                if sch is None:
+                    out.append("UNBUILT")
+                    continue
+                try:
+                    out.append(canon(self.fake(sch)))
+                except RecursionError:
+                    out.append("EXC:RecursionError")
+                except Exception as e:
+                    out.append("EXC:%s" % type(e).__name__)
+        t = threading.Thread(target=body)
+        t.start()
+        t.join()
+        return out
+
     def _noise(self, nr, schemas, i):
         """Non-generating public operations between two fakes (must not influence the values)."""
         live = [s for s in schemas if s is not None]
@@ -118,6 +142,7 @@ class Prop(BaseProp):
                 elif op == "new_generator":
                     from d42.generation import Generator, RegexGenerator
                     Generator(self.Random(), RegexGenerator(self.Random(), max_repeat=3))
+                    RegexGenerator(self.Random(), alphabet={"letters": "xyz", "digits": "12", "word": "ab_"})
                 elif op == "combine":
                     s | nr.choice(live)
                     d1 = self.schema.dict({"a": self.schema.int, ...: ...})
@@ -190,9 +215,10 @@ class Prop(BaseProp):
         c = self.values(case, schemas, noise=True)    # with interleaved non-generating operations
         schemas2 = self.build_all(case)
         d = self.values(case, schemas2)               # freshly built equal schemas
+        e = self.values_other_thread(case, schemas)   # seeded on this thread, generated on another (sequentially)
         violations = []
         feats = seed_features(case)
-        for label, other in (("repeat_same_process", b), ("interleaved_noise", c), ("rebuilt_schemas", d)):
+        for label, other in (("repeat_same_process", b), ("interleaved_noise", c), ("rebuilt_schemas", d), ("other_thread", e)):
             if other != a:
                 idx = [i for i, (x, y) in enumerate(zip(a, other)) if x != y]
                 sig = {"property": "C17", "outcome": "differs:" + label}
@@ -212,7 +238,7 @@ class Prop(BaseProp):
         shapes = tuple(S.shape(sp) for sp in case["specs"])
         keys = {derive(shapes, type(dec(case["k"])).__name__) & 0xFFFFFFFFFFFF}
         self.warm.append((case, a))
-        return {"executions": 4, "violations": violations, "keys": keys, "digest": fast_digest(a),
+        return {"executions": 5, "violations": violations, "keys": keys, "digest": fast_digest(a),
                 "per_schema": [fast_digest(x) for x in a],
                 "sample": {"seed": canon(dec(case["k"]))[:60], "schemas": [S.shape(sp)[:120] for sp in case["specs"]][:4],
                            "values": [x[:80] for x in a][:4]}}
@@ -244,6 +270,8 @@ class Prop(BaseProp):
         mode = schedule_json.get("mode")
         if mode == "interleaved_noise":
             other = self.values(case, schemas, noise=True)
+        elif mode == "other_thread":
+            other = self.values_other_thread(case, schemas)
         elif mode == "rebuilt_schemas":
             other = self.values(case, self.build_all(case))
         else:
@@ -277,6 +305,7 @@ def gen_case(labels, cfg):
     k = S.Knobs(r, no_clock=True, allow_ops=True)
     k.p_regex = r.choice((0.0, 0.3, 0.6, 0.9))
     k.p_regex_unsup = r.choice((0.0, 0.0, 0.3))
+    k.p_regex_flags = r.choice((0.0, 0.0, 0.3))
     k.p_value = r.choice((0.0, 0.1))
     if "str" not in k.types and r.random() < 0.7:
         k.types.add("str")
